@@ -195,9 +195,16 @@ func (db *LeveldbPermanent) State(key string) (st base.State, found bool, _ erro
 		return i, j, nil
 	}
 
-	pst, err := db.st()
-	if err != nil {
-		return nil, false, err
+	// NOTE the read lock is held from the storage read to the cache update; a
+	// merge, which stores the new states and purges their cache entries under
+	// the write lock, can not slip in between and leave an old state in the
+	// cache.
+	db.RLock()
+	defer db.RUnlock()
+
+	pst := db.pst
+	if pst == nil {
+		return nil, false, storage.ErrClosed.WithStack()
 	}
 
 	switch b, found, err := pst.Get(leveldbStateKey(key)); {
